@@ -227,8 +227,33 @@ ACC4_GUARDS = ["if self._is_vertex_on_border is None:\n    self._compute_interio
                "if self._boundary_vertices is None:\n    self._compute_interior_boundary_vertices()",
                "if self._interior_vertices is None:\n    self._compute_interior_boundary_vertices()",
                "if self._is_triangular is None:\n    self._compute_mesh_type()", "if self._is_quad is None:\n    self._compute_mesh_type()"]
+def _v2v_add(c, b, env, nxt, ind, exits):
+    pre = []
+    v, _ = c.E(b["M_v"], env, pre); x, _ = c.E(b["M_c"], env, pre)
+    if pre or env.get("p0._adjV2V") != "V2Cn": raise c.err("unsupported `.add` on a neighbour set")
+    return f"{ind}let p0__adjV2V : V2Cn := v2cnAdd p0__adjV2V {v} {x}\n" + nxt(env)
+
+
+POLY_EXPRS = [
+    ("dict([(M_i, set()) for M_i in self.mesh.id_vertices])", "(List.replicate S.nv ([] : List Nat))", "V2Cn"),
+    ("self.mesh.id_vertices", "(List.range S.nv)", "List Nat"),
+    ("self.mesh.edges", "S.edges", "List (Nat × Nat)"),
+    ("list(M_x)", "{x}", "List Nat"),
+]
+
+
+def poly_defs():
+    tl, _ = T.load(LIN)
+    v = PL.Vocab(["self"], [None], exprs=POLY_EXPRS, stmts=[("self._adjV2V[M_v].add(M_c)", _v2v_add)], drop=["assert M_a != M_b"],
+                 subs={"V2Cn": {"get": ("(v2cnGet {x} {k})", "List Nat", False), "set": "v2cnSet {x} {k} {v}"}},
+                 ctx="(S : Surf)", ctxargs="S", ret="V2Cn", fall="p0__adjV2V")
+    v.effects = [("self._adjV2V[M_v].add(M_c)", ["self._adjV2V"])]
+    return PL.compile_function("polyComputeConnectivity", T.find_def(tl, "PolyLine._Connectivity._compute_connectivity"), v,
+                               "`PolyLine._Connectivity._compute_connectivity`: the `_adjV2V` table (each set kept in insertion order)")
+
+
 ACC2_GUARDS = ["if self._adjV2Cn is None:\n    self._compute_connectivity()", "if self._adjV2V is None:\n    self._compute_connectivity()"]
-ACC2_FUNCTIONS = [a[1] for a in ACC2] + [a[1] for a in ACC3] + [a[1] for a in ACC4]
+ACC2_FUNCTIONS = [a[1] for a in ACC2] + [a[1] for a in ACC3] + [a[1] for a in ACC4] + ["PolyLine._Connectivity._compute_connectivity"]
 
 
 def acc2_defs():
@@ -249,6 +274,7 @@ def acc2_defs():
         v = PL.Vocab(params, ptypes, exprs=[], subs={"BoolMap": {"get": ("(Mouette.PySrc.boolGet {x} {k})", "Bool", False)}}, drop=ACC4_GUARDS, ret=ret,
                      ctx=ACC4_CTX, ctxargs="", init_env=ACC4_ENV)
         out.append(PL.compile_function("m_" + lean, T.find_def(ts, py), v, f"`{py}` on the filled caches (the lazy guard is the guard table's business)"))
+    out.append(poly_defs())
     return "\n".join(out)
 
 
@@ -342,6 +368,7 @@ ACC2_FALLBACK = ("/- the translator refused the current source: stubs (the bridg
                  f"def vertexToCorners {_T2} (p1 : Nat) : Option (List Nat) := some [0]\n"
                  f"def vertexToVertices {_T2} (p1 : Nat) : Option (List Nat) := some [0]\n"
                  f"def cornerToFace {_T2} (p1 : Nat) : Option Nat := some 0\n"
+                 "def polyComputeConnectivity (S : Surf) : V2Cn := [[0, 0]]\n"
                  "def faceToFirstCorner (S : Surf) (p0__adjF2Cn : FDict) (p1 : Nat) : Option Nat := some 0\n"
                  "def faceToCorners (S : Surf) (p0__adjF2Cn : FDict) (p1 : Nat) : Option (List Nat) := some [0]\n"
                  "def faceToFaces (S : Surf) (p0__adjF2Cn : FDict) (p1 : Nat) : Option (List Nat) := some [0]\n" +
